@@ -337,6 +337,11 @@ def literal_tables(fn: ast.FunctionDef):
 
 
 def run(chk, S: Session):
+    _run_main(chk, S)
+    preconditioner_range_rules(chk, S)
+
+
+def _run_main(chk, S: Session):
     chk.trust("closed forms of DESIGN.md 5/C09", "linalg.vector_dot / @ : matrix product", "solve(M, R) = M^-1 R", "np.concatenate(..., axis=-1) places blocks left to right")
     r1 = chk.rule("R-C09-1", "every literal of the Pade/Legendre tables equals its closed form (exact rational arithmetic, exhaustive)", floor=400)
     r2 = chk.rule("R-C09-2", "initialisers: power of A multiplying C[r,c] is c, complete, in block r, scaled 1/sqrt(2r+1); U/V hold b_k A^k (odd/even)", floor=60)
@@ -798,3 +803,97 @@ def drift_rules(chk, S, r5):
         val_d = it_d.call(ode_d.fields["autonomous"], [], {"jet_coords": xs}, "<harness>")
         same = isinstance(val_d, (list, tuple)) and isinstance(val, (list, tuple)) and len(val) == len(val_d) and all(nf.equal(a, b) for a, b in zip(val, val_d))
         r5.require(same, f"{base_name} twins", "the *_diffuse constructor defines the same drift", f"{T.show(val, 3)} vs {T.show(val_d, 3)}", API)
+
+
+# ---------------------------------------------------------------------------
+# R-C09-9: magnitude of the Taylor preconditioner over the box the statement quantifies over.
+# The preconditioner vectors are closed forms in (dt, k): p_k = dt^k / k!, p_k^-1 = dt^-k k!, k = 0..q.  For fixed k both are monotone in dt > 0, so their
+# extreme magnitudes over  dt in [h_min, h_max], q <= q_max  are attained at the corners: an interval evaluation of the two expressions the source computes.
+# Removing the preconditioner multiplies p_k * (...) * p_j^-1: if p^-1 overflows the working precision (and p underflows) the product is 0 * inf.
+BOX = {"h_min": 1e-6, "h_max": 1e2, "q_max": 10}  # "all h in [1e-6, 1e2] ..., orders q = 0..10" (quantifier of C09)
+FLOATS = {"float64": (1.7976931348623157e308, 2.2250738585072014e-308), "float32": (3.4028234663852886e38, 1.1754943508222875e-38)}
+
+
+def _ival_eval(t, dt_iv):
+    """Interval evaluation of a term built from dt, np.arange, np.factorial, np.power, neg, mul, div: returns a list of (lo, hi) of magnitudes, one per entry."""
+    import math
+
+    if isinstance(t, (int, float)) and not isinstance(t, bool):
+        return [(float(t), float(t))]
+    if not isinstance(t, T.Term):
+        raise AnalysisError(f"preconditioner range: cannot evaluate {t!r}")
+    if t.op == "atom":
+        return [dt_iv]
+    if t.op == "np.arange":
+        start = float(t.args[0])
+        stop = float(t.args[1])
+        step = float(t.kwargs.get("step", t.args[2] if len(t.args) > 2 else 1))
+        out, x = [], start
+        while (step > 0 and x < stop) or (step < 0 and x > stop):
+            out.append((x, x))
+            x += step
+        return out
+    if t.op == "neg":
+        return [(-hi, -lo) for lo, hi in _ival_eval(t.args[0], dt_iv)]
+    if t.op == "np.factorial":
+        return [(math.gamma(lo + 1), math.gamma(hi + 1)) for lo, hi in _ival_eval(t.args[0], dt_iv)]
+    if t.op in ("np.power", "pow"):
+        base, exps = _ival_eval(t.args[0], dt_iv), _ival_eval(t.args[1], dt_iv)
+        if len(base) != 1:
+            raise AnalysisError("preconditioner range: vector base")
+        (blo, bhi) = base[0]
+        out = []
+        for elo, ehi in exps:
+            if elo != ehi:
+                raise AnalysisError("preconditioner range: interval exponent")
+            vals = [blo ** elo, bhi ** elo]
+            out.append((min(vals), max(vals)))
+        return out
+    if t.op in ("mul", "div"):
+        a, b = _ival_eval(t.args[0], dt_iv), _ival_eval(t.args[1], dt_iv)
+        if len(a) == 1:
+            a = a * len(b)
+        if len(b) == 1:
+            b = b * len(a)
+        if len(a) != len(b):
+            raise AnalysisError("preconditioner range: shapes")
+        out = []
+        for (alo, ahi), (blo, bhi) in zip(a, b):
+            vals = [x * y if t.op == "mul" else x / y for x in (alo, ahi) for y in (blo, bhi)]
+            out.append((min(vals), max(vals)))
+        return out
+    raise AnalysisError(f"preconditioner range: operator {t.op} not in the closed-form fragment")
+
+
+def preconditioner_range_rules(chk, S):
+    r9 = chk.rule("R-C09-9", "over the box of the statement (h in [1e-6, 1e2], q <= 10) both vectors of the Taylor preconditioner stay finite and normal in the working precision "
+                  "(interval evaluation of the closed forms the source computes); otherwise removing the preconditioner is 0 * inf", floor=2)
+    where = "probdiffeq/_probdiffeq/utilities.py"
+    it = S.interp()
+    try:
+        pre = it.call(it.function_value(UTIL + ".preconditioner_taylor"), [BOX["q_max"]], {}, "<harness>")
+        out = it.call(pre, [A("dt")], {}, "<harness>")
+    except AnalysisError as e:
+        r9.unknown("preconditioner_taylor", f"not analysed: {e}", where)
+        return
+    S.absorb(it)
+    if not (isinstance(out, (tuple, list)) and len(out) == 2):
+        r9.unknown("preconditioner_taylor", f"returns {T.show(out, 3)}", where)
+        return
+    try:
+        ivs = [_ival_eval(o, (BOX["h_min"], BOX["h_max"])) for o in out]
+    except (AnalysisError, OverflowError, ZeroDivisionError) as e:
+        r9.unknown("preconditioner_taylor range", f"{e}", where)
+        return
+    biggest = max(hi for iv in ivs for _lo, hi in iv)
+    smallest = min(lo for iv in ivs for lo, _hi in iv)
+    # the entry where the precision is first exceeded, for the message
+    for name, (fmax, ftiny) in FLOATS.items():
+        ok = biggest < fmax and smallest > ftiny
+        worst = ""
+        if not ok:
+            ks = [k for k, (lo, hi) in enumerate(ivs[1]) if hi >= fmax]
+            worst = f"; p^-1 exceeds {fmax:.3g} from entry {min(ks)} of {len(ivs[1])} on" if ks else ""
+        r9.require(ok, f"Taylor preconditioner within the range of {name} over the stated box", f"magnitudes in [{smallest:.3g}, {biggest:.3g}]",
+                   f"magnitudes reach [{smallest:.3g}, {biggest:.3g}] (dt = {BOX['h_min']:g}, q = {BOX['q_max']}){worst}: in {name} p^-1 = dt^-k k! overflows to inf while p = dt^k / k! underflows, and removing the "
+                   "preconditioner computes 0 * inf = NaN", where, {"precision": name})
